@@ -24,8 +24,9 @@ def parseLink (s : Str) : Link :=
   | [a, r] => { alias := a, rest := r }
   | _ => { alias := [], rest := s }
 
-/-- tokens: `D<US>name`, `E`, `F<US>name<US>(t|n)<US>title<US>ordered<US>copy<US>links` -/
-def parseEntries : Nat → List Str → List Entry × List Str
+/-- tokens: `D<US>name`, `E`, `F<US>name<US>(t|n)<US>title<US>ordered<US>copy<US>links<US>wenc`
+    (`wenc` = the encoding the file is written in, empty for a pure ASCII file) -/
+def parseEntries : Nat → List Str → List RawEntry × List Str
   | 0, ts => ([], ts)
   | _, [] => ([], [])
   | fuel + 1, t :: ts =>
@@ -35,14 +36,14 @@ def parseEntries : Nat → List Str → List Entry × List Str
       let (cs, rest) := parseEntries fuel ts
       let (sibs, rest2) := parseEntries fuel rest
       (.dir name cs :: sibs, rest2)
-    | [['F'], name, tf, title, ord, cp, lk] =>
+    | [['F'], name, tf, title, ord, cp, lk, wenc] =>
       let (sibs, rest) := parseEntries fuel ts
-      (.file name { title := if tf == ['t'] then some title else none,
-                    ordered := splitList RS ord, copySub := splitList RS cp,
-                    links := (splitList RS lk).map parseLink } :: sibs, rest)
+      (.file name wenc { title := if tf == ['t'] then some title else none,
+                         ordered := splitList RS ord, copySub := splitList RS cp,
+                         links := (splitList RS lk).map parseLink } :: sibs, rest)
     | _ => ([], ts)
 
-def parseTree (ts : List Str) : List Entry := (parseEntries (ts.length + 1) ts).1
+def parseTree (ts : List Str) : List RawEntry := (parseEntries (ts.length + 1) ts).1
 
 def parseVariant (s : Str) : Variant :=
   { cc := if startsWith s "ignored".toList then .ignored else .asIs,
@@ -68,17 +69,19 @@ def dispatchC17 : List Str → Option (List Str)
   | cmd :: args =>
     if cmd == "c17.tree".toList then
       match args with
-      | v :: base :: cwd :: toks =>
+      | v :: base :: cwd :: enc :: toks =>
         let b := absPath base
         let c := absPath cwd
-        match getPageTree (parseVariant v) (parseTree toks) with
+        match getPageTreeRaw CallSites.gen (parseVariant v) enc (parseTree toks) with
         | .page top =>
           some ("ok".toList :: (preorder top).map (showNode b c top) ++ ["--".toList] ++ (outputs top).map showOut)
         | .abort p => some ["abort".toList, showPath p]
         | _ => some ["none".toList]
       | _ => some ["bad-request".toList]
     else if cmd == "c17.spec".toList then
-      some ("ok".toList :: (expPages (parseTree args)).map showPath)
+      match args with
+      | enc :: toks => some ("ok".toList :: (expPages (viewL enc (parseTree toks))).map showPath)
+      | _ => some ["bad-request".toList]
     else if cmd == "c17.sort".toList then some ("ok".toList :: sortNames args)
     else if cmd == "c17.merged".toList then
       match args with
